@@ -681,6 +681,14 @@ func (e *Eng) FuncValue(v ssa.Value) *ssa.Function {
 		case *ssa.MakeInterface:
 			v = x.X
 			continue
+		case *ssa.UnOp:
+			// a function kept in a local variable that is assigned once (possibly captured by a literal)
+			if cell := cellOf(x.X); cell != nil {
+				if sv := singleStore(cell); sv != nil {
+					v = sv
+					continue
+				}
+			}
 		case *ssa.Function:
 			if x.Synthetic != "" && x.Object() != nil {
 				if tf, ok := x.Object().(*types.Func); ok {
@@ -717,4 +725,114 @@ func (e *Eng) GoSites(fn *ssa.Function) []GoSite {
 		}
 	}
 	return out
+}
+
+// Alt is one of the values a phi can take, with the edge it arrives on.
+type Alt struct {
+	V    ssa.Value
+	Pred *ssa.BasicBlock // nil when V is not a phi operand (a single value)
+	At   *ssa.BasicBlock
+}
+
+// AltsOf lists the leaf alternatives of v (phis expanded, at most three levels).
+func AltsOf(v ssa.Value) []Alt {
+	var out []Alt
+	var rec func(v ssa.Value, pred, at *ssa.BasicBlock, depth int)
+	rec = func(v ssa.Value, pred, at *ssa.BasicBlock, depth int) {
+		if p, ok := v.(*ssa.Phi); ok && depth < 3 {
+			for i, ed := range p.Edges {
+				rec(ed, p.Block().Preds[i], p.Block(), depth+1)
+			}
+			return
+		}
+		out = append(out, Alt{v, pred, at})
+	}
+	rec(v, nil, nil, 0)
+	return out
+}
+
+// AltUnder reports whether the alternative only arrives under one of lits: the edge it arrives on asserts it, or
+// the block it comes from is only reachable under it.
+func (e *Eng) AltUnder(a Alt, lits ...LitM) bool {
+	if a.Pred == nil {
+		return false
+	}
+	for si, s := range a.Pred.Succs {
+		if s == a.At {
+			if li, ok := e.EdgeLit(a.Pred, si); ok {
+				for _, l := range lits {
+					if l.F(li) {
+						return true
+					}
+				}
+			}
+		}
+	}
+	if n := len(a.Pred.Instrs); n > 0 {
+		return e.OnlyUnder(a.Pred.Instrs[n-1], lits...)
+	}
+	return false
+}
+
+// cellOf: the local variable cell behind an address: the Alloc itself, or the Alloc a free variable is bound to.
+func cellOf(addr ssa.Value) *ssa.Alloc {
+	switch a := addr.(type) {
+	case *ssa.Alloc:
+		return a
+	case *ssa.FreeVar:
+		fn := a.Parent()
+		if fn == nil || fn.Parent() == nil {
+			return nil
+		}
+		idx := -1
+		for i, fv := range fn.FreeVars {
+			if fv == a {
+				idx = i
+			}
+		}
+		for _, in := range AllInstrs(fn.Parent()) {
+			if mc, ok := in.(*ssa.MakeClosure); ok && mc.Fn == ssa.Value(fn) && idx >= 0 && idx < len(mc.Bindings) {
+				return cellOf(mc.Bindings[idx])
+			}
+		}
+	}
+	return nil
+}
+
+// singleStore: the value of a cell that is written exactly once.
+func singleStore(cell *ssa.Alloc) ssa.Value {
+	var val ssa.Value
+	n := 0
+	var visit func(refs *[]ssa.Instruction)
+	visit = func(refs *[]ssa.Instruction) {
+		if refs == nil {
+			return
+		}
+		for _, r := range *refs {
+			if st, ok := r.(*ssa.Store); ok && st.Addr == ssa.Value(cell) {
+				n++
+				val = st.Val
+			}
+		}
+	}
+	visit(cell.Referrers())
+	// writes through closures that captured the cell
+	for _, r := range *cell.Referrers() {
+		if mc, ok := r.(*ssa.MakeClosure); ok {
+			f := mc.Fn.(*ssa.Function)
+			for i, b := range mc.Bindings {
+				if b == ssa.Value(cell) && i < len(f.FreeVars) {
+					for _, in := range AllInstrs(f) {
+						if st, ok := in.(*ssa.Store); ok && st.Addr == ssa.Value(f.FreeVars[i]) {
+							n++
+						}
+					}
+				}
+			}
+		}
+	}
+	if n == 1 {
+		return val
+	}
+	return nil
 }
